@@ -52,3 +52,26 @@ package inproc
 // ---- round 6: the listener an accepter is taken from is the one registered now ----
 //@ func (*dialer).Dial
 //@   before call:Unlock#3 assert has(listeners.byAddr, d.addr) && listeners.byAddr[d.addr] == l
+
+// ---- thin spots (round 7b) ----
+//@ func (inprocTran).NewDialer
+//@   ghost serr = result1 at call:StripScheme#1
+//@   ghost i1 = result at call:Info#1
+//@   ghost i2 = result at call:Info#2
+//@   ensures !isnil(serr) ==> isnil(result0) && result1 == serr
+//@   ensures isnil(serr) ==> isnil(result1) && cast("*dialer", result0).addr == addr && cast("*dialer", result0).selfProto == i1.Self && cast("*dialer", result0).peerProto == i2.Peer
+//@
+//@ func (inprocTran).NewListener
+//@   ghost serr = result1 at call:StripScheme#1
+//@   ghost i1 = result at call:Info#1
+//@   ghost i2 = result at call:Info#2
+//@   ensures !isnil(serr) ==> isnil(result0) && result1 == serr
+//@   ensures isnil(serr) ==> isnil(result1) && cast("*listener", result0).addr == addr && cast("*listener", result0).selfProto == i1.Self && cast("*listener", result0).peerProto == i2.Peer && !cast("*listener", result0).active && !cast("*listener", result0).closed
+//@
+//@ func (*listener).Accept
+//@   ghost ok = l.active && !l.closed at call:Lock#1
+//@   ensures !ok ==> isnil(result0) && result1 == mangos.ErrClosed
+//@   before select#1 assert ok && selwaits(server.readyq) && selwaits(server.closeq)
+//@   before return#2 assert sel("select#1") == 0
+//@   ensures sel("select#1") == 0 ==> isnil(result1) && !isnil(result0)
+//@   ensures sel("select#1") == 1 ==> isnil(result0) && result1 == mangos.ErrClosed
